@@ -63,10 +63,10 @@ impl UrlPath {
             }
 
             if _char == ']' && previous_char.is_some() && previous_char.unwrap() == ']' {
-                is_opened_token = false;
-                if _buffer.len() < 2 {
+                if !is_opened_token {
                     return Err("at least one extra ] char".to_string());
                 }
+                is_opened_token = false;
                 let without_square_brackets = _buffer.len() - 2;
                 let key : String = _buffer[0..without_square_brackets].into_iter().collect();
                 let part = Part {
@@ -82,6 +82,10 @@ impl UrlPath {
             }
 
             previous_char = Some(_char.clone());
+        }
+
+        if is_opened_token {
+            return Err("token is not closed, ]] is missing".to_string());
         }
 
         if _buffer.len() != 0 {
